@@ -8,7 +8,7 @@ VERIF = Path(__file__).resolve().parent.parent
 CLAIMED = {
     "C15": ("Coq proof (induction over the dict loop, refinement to an index-level spec) + extracted-model correspondence + pairwise oracle",
             "Theorems in coq/theories/Props/C15.v state, for every list and every comparison that is an equivalence, that the reported indices are exactly those equivalent to an earlier entry (ascending), that 'first' is exactly the first member of every class of size >= 2, that removing the report leaves one representative per class and no duplicate, and that reactant/product order never matters; the model is tied to Network.find_duplicate_reaction/remove_reaction by running both on generated duplicate-rich lists in all four modes.",
-            "Model of the dict loop is hand-written (Model/Dup.v); dict lookup modelled as first equal key (needs hash consistent with ==, i.e. one spelling per species); default mode proved on lists without UNKNOWN types, refuted in general (known finding).",
+            "Model of the dict loop is hand-written (Model/Dup.v); dict lookup is modelled as first equal key, which needs hash consistent with ==: theorem equal_reactions_hash_alike proves it for the model of Reaction.__hash__ (one tuple of sorted species hashes), and hash() is compared on sampled pairs; the pairwise oracle uses the harness's own equivalence per mode, not Reaction.__eq__; default mode proved on lists without UNKNOWN types, refuted in general (known finding).",
             "7 C15"),
 }
 
@@ -26,15 +26,15 @@ CLAIMED.update({
             "Template index decoding (loop.index0/neqns)|int is float division (exact below 2^53); subscripts of rendered sources are scanned textually after emulating the preprocessor conditionals.",
             "7 C03"),
     "C04": ("Coq proof (weighted-sum identity over any commutative ring) + correspondence + exact oracle on balanced networks",
-            "Theorems in Props/C04.v: for any weight per species slot, if every reaction carries equal weight on both sides the weighted sum of the generated species derivatives is identically zero (all abundances, all rate values). Tied to the code by the C01 correspondence on generated balanced networks and by exact evaluation of the emitted/rendered equations and of GetElementAbund with generator-side compositions.",
+            "Theorems in Props/C04.v: for any weight per species slot, if every reaction carries equal weight on both sides the weighted sum of the generated species derivatives is identically zero (all abundances, all rate values). The statement GetElementAbund returns for an element evaluates to the count-weighted sum of all abundances and GetMantleDens to the sum over the ice species (any ring; Model/Physics). Tied to the code by the C01 correspondence on generated balanced networks, by exact evaluation of the emitted/rendered equations and of GetElementAbund with generator-side compositions, and by comparing the text of every rendered helper branch with the model.",
             "Which reactions are balanced is decided by the generator's composition table; species identity (two spellings, one slot) is C08/C09.",
             "7 C04"),
     "C06": ("Coq proof (guard semantics over Q, partition of adjacent windows by induction) + correspondence + probe oracle",
             "Theorems in Props/C06.v: the generated assignment, with k[] initialised to 0, equals the rate expression iff Tmin <= T < Tmax (non-positive bound = unbounded) and 0 otherwise; adjacent positive boundaries give exactly one active reaction on [b0, bn) boundaries included; a rate modifier drops the guard. Tied to _assign_rates, the rendered EvalRates of all back-ends and the presence/position of the zero initialiser in every Fex/Jac.",
-            "Temperatures are exact rationals; the C-level zero initialisation is checked textually in the rendered sources (executed in channel C of C05 when built).",
+            "Temperatures are exact rationals; the C-level zero initialisation is checked textually in every rendered source and by running the compiled Odeint and CVODE-dense right-hand sides at a sequence of temperatures in one process against fresh processes (stand-in headers trusted).",
             "7 C06"),
     "C13": ("Coq proof (list-level characterisation of the overwrite loop; refinement theorem for ODE modifiers) + correspondence + differential oracle incl. the configuration-file path",
-            "Theorems in Props/C13.v: a rate modifier replaces exactly the assignments whose reaction index equals its key (last key wins) and re-indexing happens only for fully unindexed networks; an ODE modifier appends its terms to the target equation only. Tied to the API, TemplateLoader.render, Network.export -> `naunet render` and `naunet init` -> TOML.",
+            "Theorems in Props/C13.v: a rate modifier replaces exactly the assignments whose reaction index equals its key (last key wins) and re-indexing happens only for fully unindexed networks; an ODE modifier appends its terms to the target equation only; the --rate-modifier / --ode-modifier texts written for a list of modifiers are parsed back to that list (model of `naunet init`). Tied to the API (also on networks edited after the modifiers were attached), TemplateLoader.render, Network.export -> `naunet render` and `naunet init` -> TOML.",
             "tomlkit and cleo option tokenisation are exercised, not modelled.",
             "7 C13"),
 })
@@ -47,9 +47,9 @@ CLAIMED.update({
 })
 
 CLAIMED.update({
-    "C08": ("Coq proof (invariants of the priority-ordered masking scan: soundness, disjointness, coverage; charge arithmetic) + extracted-model correspondence on rendered compositions and malformed names + composition oracle",
-            "Theorems in Props/C08.v, for every table configuration without blanks in a symbol: components are tried longest first; every match is an occurrence of a configured symbol in the name; characters claimed by one symbol are never re-read as another (Si never S+i); every character of an accepted name is a digit or inside a matched symbol, hence names with a foreign character are rejected; the net charge is the number of trailing '+' minus trailing '-'. Closed computations on the tables regenerated from /repo give the examples of the property text. Tied to Species by comparing every field (counts in order, groups, charge, basename, gasname, alias, mass number, is_atom, is_electron, ==, hash key) with the extracted model over five table configurations.",
-            "The composition round trip (render -> parse gives back the composition) is decided per generated name by the oracle under the decidable `unambiguous` premise, not yet proved for a class of names; regular-expression metacharacters other than a backslash escape are outside the model; the '*' label is a known finding.",
+    "C08": ("Coq proof (invariants of the priority-ordered masking scan: soundness, disjointness, coverage, exactness under a decidable premise; the whole parser as a fold over the rendered items; charge arithmetic) + extracted-model correspondence on rendered compositions and malformed names, theorem premises evaluated per name + composition oracle",
+            "Theorems in Props/C08.v, for every table configuration without blanks in a symbol: components are tried longest first; every match is an occurrence of a configured symbol in the name; characters claimed by one symbol are never re-read as another (Si never S+i); every character of an accepted name is a digit or inside a matched symbol, hence names with a foreign character are rejected; the net charge is the number of trailing '+' minus trailing '-'; round trip (scan_exact, name_roundtrip): for every table configuration and every list of items (symbol, digit run) whose rendering is `unambiguous` (decidable: every occurrence of a configured symbol in the name is an intended token or overlaps an intended token of a symbol tried earlier) the scan finds exactly the intended tokens and the parser returns the fold of the counting step over the items - same error or same element counts, surface group, grain group and name. Closed computations on the tables regenerated from /repo give the examples of the property text. Tied to Species by comparing every field (counts in order, groups, charge, basename, gasname, alias, mass number, is_atom, is_electron, ==, hash key) with the extracted model over six table configurations; the premises of name_roundtrip are evaluated by the model on every generated name and its conclusion compared with the implementation.",
+            "Names outside the `unambiguous` premise are compared with the model only (no abstract expectation); regular-expression metacharacters other than a backslash escape are outside the model; the '*' label is a known finding.",
             "7 C08"),
 })
 
@@ -91,14 +91,14 @@ CLAIMED.update({
 CLAIMED.update({
     "C16": ("Coq proof (term-list model of the coupling matrix and the per-species factor; finite-sum algebra over R: exchange of the species and element sums, the weight cancels) + extracted-model correspondence on the emitted terms + exact rational solve-and-apply oracle on generator output and rendered naunet_renorm.cpp",
             "Theorems in Props/C16.v, for arbitrary real abundances, any solution r of the generated system M r = ref and any Hn <> 0: after the generated update the total of every element is Hn x ref_i (so its abundance relative to hydrogen nuclei is the reference ratio) - with no assumption on the mass numbers, the weight (mass number, or 1 for a dust grain) being provably non-zero and cancelling; electrons are untouched; with additive mass numbers r = 1 solves the system exactly when the totals already match and then changes nothing. Tied to _prepare_renorm_content and the rendered InitRenorm / RenormAbundance (entry positions through the rendered macros).",
-            "The dense linear solve of SUNDIALS is not modelled (the theorem is for any exact solution; the oracle uses exact rational elimination); floating-point rounding outside the model; known finding: no identity when an element occurs only inside molecules; two fixed defects (grain mass number 0, empty factor).",
+            "The dense linear solve of SUNDIALS is not modelled (the theorem is for any exact solution; the oracle uses exact rational elimination; channel C runs the rendered Naunet::SetReferenceAbund / Renorm four times on one object against a stand-in with a floating-point dense solve); floating-point rounding outside the model; known finding: no identity when an element occurs only inside molecules; two fixed defects (grain mass number 0, empty factor).",
             "7 C16"),
 })
 
 CLAIMED.update({
     "C19": ("Coq proof (accounting invariant of the recovery ladder - progress made + time still to integrate = requested span - by induction over levels and sub-steps, for every fault script and every tout schedule ending at the remaining span) + correspondence of the extracted model with the rendered dense / sparse naunet.cpp compiled against a scripted mock CVODE, and of the Odeint budget with the rendered Odeint sources against a Boost stand-in + structural oracle",
             "Theorems in Props/C19.v: for every script of integrator outcomes obeying CVODE's contract, every dt, y0 and every sub-step schedule whose last sub-step of each level is the whole remaining span, a successful return of Solve means the state advanced over exactly dt (nothing skipped, nothing integrated twice across levels and restarts); failure <=> the initial state is logged; an unrecoverable flag or a failing re-initialisation is a failure at once; five failed levels are a failure after 6 calls / 5 re-initialisations; the Odeint observer turns more calls than mxsteps into failure. Tied to the generated C++ (which exists only as template text) by compiling the rendered naunet.cpp of both CVODE back-ends and of Odeint and running them on hundreds of fault scripts.",
-            "CVODE's contract, the mock integrators and the SUNDIALS/Boost stand-in headers are modelled API (trusted for channel C); pow(10, log10(dt)...) is exact only up to double rounding (final state compared to 1e-9); CUDA cannot be compiled here: the cuSPARSE branch is a known finding established from the rendered text, as is the Odeint PyWrapSolve that drops the flag.",
+            "CVODE's contract, the mock integrators (which own their state like CVODE: CVodeInit/CVodeReInit copy in, CVode copies out) and the SUNDIALS/Boost stand-in headers are modelled API (trusted for channel C); the value logged as the initial condition is compared with the state Solve was called with; pow(10, log10(dt)...) is exact only up to double rounding (final state compared to 1e-9); CUDA cannot be compiled here: the cuSPARSE branch is a known finding established from the rendered text, as is the Odeint PyWrapSolve that drops the flag.",
             "7 C19"),
 })
 
@@ -112,7 +112,7 @@ CLAIMED.update({
 CLAIMED.update({
     "C20": ("Coq proof (parse-after-print round trip of every option kind - comma lists, key/value tables with and without stripping, repeated rate-modifier options, ODE-modifier items - from the split/join and strip lemmas, composed field by field for the whole description) + extracted-model correspondence against `naunet init` on generated option strings + request-vs-file oracle and command-line-vs-API rendering comparison",
             "Theorems in Props/C20.v: a network description whose values hold no separator of their own field, no blank at either end and no substring 'null' reaches the configuration exactly as written on the command line - element and pseudo-element lists, replacements, the three species symbols, allowed and extra species, binding energies and yields, files and formats, grain model, thermal processes, shielding, rate modifiers, solver / device / method; each option kind separately; the configuration writes the bulk prefix it is given (probed on every run). Two separator behaviours are proved as known findings ('null' removed from every value; rate-modifier values cut at a second colon). Tied to `naunet init` -> naunet_config.toml -> `naunet render` and to Network(...).to_code().",
-            "cleo's tokenisation and tomlkit are exercised, not modelled (a TOML document is the record of values put into it); ODE modifiers are proved per item and compared by the correspondence, the composed theorem takes them empty; the render comparison needs a description the network files support.",
+            "cleo's tokenisation and tomlkit are exercised, not modelled (a TOML document is the record of values put into it); ODE modifiers are part of the composed theorem (options_roundtrip_full: distinct species, items free of the separators : , ; [ ] and blank-free dependency names); the render comparison needs a description the network files support.",
             "7 C20"),
 })
 
